@@ -36,6 +36,7 @@ from pathlib import Path
 import vcore
 
 JAVA_SH = r"""#!/bin/sh
+# few forks on purpose (the matrix starts this script hundreds of times): `read` instead of `cat` for the control words
 PATH=/usr/bin:/bin
 d="$C18_CTL"
 last=""
@@ -43,10 +44,11 @@ for a in "$@"; do last="$a"; done
 printf '%s\n' "$@" > "$d/argv"
 if [ -f "$last" ]; then cp "$last" "$d/seen.xml"; fi
 echo "stand-in stdout noise /data/x/y (Foo.java:1)"
-mode=$(cat "$d/mode")
+read -r mode < "$d/mode"
+read -r code < "$d/code"
 case "$mode" in
-  exit) cat "$d/stderr" >&2; exit "$(cat "$d/code")";;
-  kill) cat "$d/stderr" >&2; kill -"$(cat "$d/code")" $$; sleep 5;;
+  exit) if [ -s "$d/stderr" ]; then cat "$d/stderr" >&2; fi; exit "$code";;
+  kill) if [ -s "$d/stderr" ]; then cat "$d/stderr" >&2; fi; kill -"$code" $$; sleep 5;;
   sleep) exec sleep 30;;
 esac
 exit 97
@@ -142,8 +144,8 @@ class Sandbox:
             (ctl / f).unlink(missing_ok=True)
         kind = outcome["kind"]
         os.environ["PATH"] = str(self.base / ("nobin" if kind == "absent" else "bin"))
-        (ctl / "mode").write_text("exit" if kind == "absent" else kind)
-        (ctl / "code").write_text(str(outcome.get("code", 0)))
+        (ctl / "mode").write_text(("exit" if kind == "absent" else kind) + "\n")
+        (ctl / "code").write_text(str(outcome.get("code", 0)) + "\n")
         data = outcome.get("stderr", "")
         raw = bytes.fromhex(outcome["stderr_hex"]) if "stderr_hex" in outcome else data.encode("utf-8", "surrogatepass")
         (ctl / "stderr").write_bytes(raw)
